@@ -665,3 +665,5 @@ for _pid, (_rules, _text) in _ADD11.items():
     PROPS[_pid]["explanation"] += _text
 PROPS["C17"].setdefault("extra_scope_files", []).append("mptcore/event/dispatch_hash.c")      # gathers a fragmented command with mpt_message_read()
 PROPS["C01"].setdefault("extra_scope_files", []).append("mpt++/array.cpp")      # encode_array: the C++ buffer management around mpt_array_push()
+PROPS["C20"]["rules"].append({"run": rules_layout.run_typeiddest, "floor": 12})
+PROPS["C20"]["explanation"] += " TYPEIDDEST: where the type id that reaches src->convert(src, type, dest) comes from mpt_<kind>_typeid() (nearest dominating assignment), dest points to a struct mpt_<kind>, for mpt_<kind>_pointer_typeid() to a pointer to one."
